@@ -605,7 +605,37 @@ func runC12(e *Env) {
 	}
 	reps = append(reps, c12Cmd{"text-conv-long", []string{"text", "conv", "syllable"}, longText(150, -1)})
 	mc.ParFor(len(reps), func(i int) { c12Repeat(e, reps[i]) })
-	e.R.AddPart(ev.Part{Name: "repetition (supplementary)", Enumerated: "free-running: each command 5 times (long texts with an early classification error: 25 times) under GOMAXPROCS 1, 2 and 16, byte-compared, hang watchdog (evidence, not the deciding step)", Executions: int64(15 * len(reps)), Exhaustive: true})
+	// the environment is no input: other locale, time zone, home, temp dir, working directory; and a later point in time
+	envs := [][]string{
+		{"LANG=de_DE.UTF-8", "LC_ALL=de_DE.UTF-8", "TZ=Asia/Tokyo"},
+		{"LANG=C", "LC_ALL=C", "TZ=America/St_Johns", "NO_COLOR=1", "TERM=dumb", "COLUMNS=20"},
+		{"HOME=/nonexistent", "TMPDIR=/nonexistent", "USER=nobody", "XDG_CONFIG_HOME=/nonexistent"},
+	}
+	otherDir, _ := os.MkdirTemp(e.Scratch, "cwd")
+	firstRun := make([]runOut, len(reps))
+	for i := range reps {
+		firstRun[i] = c12Exec("", reps[i], nil)
+	}
+	mc.ParFor(len(reps), func(i int) {
+		c := reps[i]
+		for vi, env := range envs {
+			e.R.Eval(1)
+			r := cli.Run(cli.Opt{Stdin: []byte(c.Input), Env: env, Dir: map[bool]string{true: otherDir, false: ""}[vi%2 == 0]}, c12Args(c.Args)...)
+			if r.Exit != firstRun[i].exit || !bytes.Equal(r.Stdout, firstRun[i].stdout) {
+				e.R.Fail(ev.Fail{Class: "C12/environment/" + c.Name, Msg: fmt.Sprintf("crd %s: the result depends on the environment (%v, working directory %v): %s", c12Key(c), env, vi%2 == 0, describeDiff(firstRun[i].stdout, r.Stdout)), Kind: "repeat", Case: c})
+				return
+			}
+		}
+	})
+	time.Sleep(2100 * time.Millisecond) // a result that embeds the time of day differs by now
+	mc.ParFor(len(reps), func(i int) {
+		e.R.Eval(1)
+		r := c12Exec("", reps[i], nil)
+		if r.exit != firstRun[i].exit || !bytes.Equal(r.stdout, firstRun[i].stdout) {
+			e.R.Fail(ev.Fail{Class: "C12/repeat-later/" + reps[i].Name, Msg: fmt.Sprintf("crd %s: the result differs two seconds later: %s", c12Key(reps[i]), describeDiff(firstRun[i].stdout, r.stdout)), Kind: "repeat", Case: reps[i]})
+		}
+	})
+	e.R.AddPart(ev.Part{Name: "repetition (supplementary)", Enumerated: "free-running: each command 5 times (long texts with an early classification error: 25 times) under GOMAXPROCS 1, 2 and 16, byte-compared, hang watchdog (evidence, not the deciding step); each also under 3 other environments (locale, time zone, HOME/TMPDIR, working directory) and once more two seconds later", Executions: int64(15 * len(reps)), Exhaustive: true})
 	if e.Thorough {
 		c12Race(e, cmds)
 	}
